@@ -37,22 +37,52 @@ type crashStore struct {
 	armed   int // -1: disarmed; k>=0: crash when the (k+1)-th call is about to return... see after()
 	calls   int
 	failAt  int  // >0: the failAt-th store call of the current operation returns errInjected (and is not executed)
-	slowSet atomic.Bool // widen the window around store writes (concurrent scenarios)
 	trace   []byte // store calls of the current sequential operation: G/S returned, g/s failed with the injected error
 	tracing bool
 	wrapNF  bool // a missing key is reported by an error that only wraps ErrKeyNotFound
 	closeAt int  // >=0: the database below the wrappers is closed once closeAt store calls of the current operation have completed
 	dsk     *disk
-	onAck   func(k, v []byte)        // a Set that answered nil: the value must be in the database
-	onRead  func(k, v []byte, e error) // a Get that answered without an I/O error: the answer must be what the database holds
+	w       *world // the store contract oracles (acked / nacked / read) live there
+	slow    *atomic.Bool // shared by the lanes: widen the window around store writes (concurrent scenarios)
 }
 
 // disk: the database below every wrapper. Its content survives Close (it can be opened again: a restart of the process that
 // owns an on-disk database); while it is closed every access answers kvstore.ErrStoreClosed, as the stores of the module do.
 type disk struct {
 	kvstore.KVStore
+	*diskState
+}
+
+// diskState is shared by every view of the database (WithRealm / WithExtendedRealm of a wrapper stack end here).
+type diskState struct {
 	closed  atomic.Bool
 	refused atomic.Int64 // accesses answered with ErrStoreClosed
+}
+
+func newDisk(s kvstore.KVStore) *disk { return &disk{KVStore: s, diskState: &diskState{}} }
+
+func (d *disk) WithRealm(realm kvstore.Realm) (kvstore.KVStore, error) {
+	if d.refuse() {
+		return nil, kvstore.ErrStoreClosed
+	}
+	s, err := d.KVStore.WithRealm(realm)
+	if err != nil {
+		return nil, err
+	}
+
+	return &disk{KVStore: s, diskState: d.diskState}, nil
+}
+
+func (d *disk) WithExtendedRealm(realm kvstore.Realm) (kvstore.KVStore, error) {
+	if d.refuse() {
+		return nil, kvstore.ErrStoreClosed
+	}
+	s, err := d.KVStore.WithExtendedRealm(realm)
+	if err != nil {
+		return nil, err
+	}
+
+	return &disk{KVStore: s, diskState: d.diskState}, nil
 }
 
 func (d *disk) refuse() bool {
@@ -159,15 +189,14 @@ func (c *crashStore) Get(k kvstore.Key) (kvstore.Value, error) {
 
 		return nil, errInjected
 	}
+	c.w.fireHook('G', k, false)
 	c.maybeClose()
 	v, err := c.KVStore.Get(k)
 	if err != nil && !ierrors.Is(err, kvstore.ErrKeyNotFound) {
 		c.note('g')
 	} else {
 		c.note('G')
-		if c.onRead != nil {
-			c.onRead(k, v, err)
-		}
+		c.w.readAnswered(k, v, err)
 	}
 	if c.wrapNF && err != nil && ierrors.Is(err, kvstore.ErrKeyNotFound) {
 		err = ierrors.Wrap(err, "sequence key")
@@ -183,7 +212,12 @@ func (c *crashStore) Set(k kvstore.Key, v kvstore.Value) error {
 
 		return errInjected
 	}
-	if c.slowSet.Load() {
+	// what the caller asked to be written, as it stood when the call was made: the bytes may not change while the call
+	// is under way (a buffer that somebody else writes into) - the database must hold exactly these afterwards
+	want := append([]byte(nil), v...)
+	before, beforeErr := c.w.rawGet(k)
+	c.w.fireHook('S', k, false)
+	if c.slow.Load() {
 		// widen the window around the store write: let the other goroutines run (no timer: a sleep costs 0.1..1 ms on a
 		// loaded machine and dominated the run time)
 		for i := 0; i < 30; i++ {
@@ -194,35 +228,100 @@ func (c *crashStore) Set(k kvstore.Key, v kvstore.Value) error {
 	err := c.KVStore.Set(k, v)
 	if err != nil {
 		c.note('s')
+		c.w.writeRefused(k, before, beforeErr)
 	} else {
 		c.note('S')
-		if c.onAck != nil {
-			c.onAck(k, v)
-		}
+		c.w.writeAcked(k, want)
 	}
 	c.after()
 
 	return err
 }
 
+const nLanes = 4
+
 type world struct {
 	root    kvstore.KVStore // the database
 	parent  kvstore.KVStore // a non-root view of it; the sequence lives in a sub-view, siblings are opened next to it
-	view    kvstore.KVStore // the handle the Sequence uses (under the crash wrapper)
-	cs      *crashStore
-	backend string // view (default) | root | flush | debug
+	view    kvstore.KVStore // the sub-view the store stack of the Sequence is built on
+	stack   kvstore.KVStore // the handle the Sequences use (under the per-lane crash wrapper): ONE store for all lanes
+	backend string          // view (default) | root | flush | debug | stack:<layers>
+	realm   []byte          // the realm the stack's handle works in (what the raw reader prefixes keys with)
 	dsk     *disk
 	hung    bool   // a request did not return: the process is of no further use
 	faultBy string // how fnext/frelease make a store call fail: "" = injected error on top of the wrappers, "close" = the database below them is closed
-	*lane           // the lane the current request works on
-	lanes   [2]*lane
+	r       *hx.Run
+	inline  bool // requests run in the calling goroutine (no watchdog goroutine of their own)
+	slow    *atomic.Bool
+	*lane          // the lane the current request works on
+	lanes   *[nLanes]*lane
+	sh      *shared
 }
 
-// lane: one sequence key with its live object and its oracle state. Lane 1 (`k2 <op>`) is a second sequence under another
-// key of the same store handle: the two must not disturb each other.
+// shared: what the store-contract oracles and the store-call hooks keep across the lanes (and across the per-lane
+// copies of `world`); guarded by mu.
+type shared struct {
+	mu    sync.Mutex
+	hooks []*hook
+	// the last value of every key that the database is known to hold (after an acknowledged write / observed at a
+	// refused one): the stored cell may not change between store calls
+	cell      map[string][]byte
+	nestFired int // nest / nestg requests whose store-call window was reached
+	dbgCalls [3]atomic.Int64 // access callbacks of debug layers: Get, Set, other
+}
+
+// hook: run `f` once, inside the next store call of the given kind (G/S) for the given key - on top of the stack (in the
+// crash wrapper) or, `deep`, inside the access callback of a debug layer of the stack.
+type hook struct {
+	kind  byte
+	key   string
+	deep  bool
+	f     func()
+	fired bool
+}
+
+func (w *world) addHook(h *hook) {
+	w.sh.mu.Lock()
+	w.sh.hooks = append(w.sh.hooks, h)
+	w.sh.mu.Unlock()
+}
+
+// dropHook removes the hook and reports whether it had fired.
+func (w *world) dropHook(h *hook) bool {
+	w.sh.mu.Lock()
+	defer w.sh.mu.Unlock()
+	for i, x := range w.sh.hooks {
+		if x == h {
+			w.sh.hooks = append(w.sh.hooks[:i], w.sh.hooks[i+1:]...)
+		}
+	}
+
+	return h.fired
+}
+
+func (w *world) fireHook(kind byte, k []byte, deep bool) {
+	w.sh.mu.Lock()
+	var run *hook
+	for _, h := range w.sh.hooks {
+		if !h.fired && h.kind == kind && h.deep == deep && h.key == string(k) {
+			h.fired, run = true, h
+
+			break
+		}
+	}
+	w.sh.mu.Unlock()
+	if run != nil {
+		run.f()
+	}
+}
+
+// lane: one sequence key with its live object and its oracle state. Lanes 1.. (`k2 <op>`, `k3 <op>`, `k4 <op>`) are further
+// sequences under other keys of the same store handle: they must not disturb each other.
 type lane struct {
+	idx      int
 	key      []byte
 	seq      *kvstore.Sequence
+	cs       *crashStore // the crash / fault wrapper of this lane (thin; the stack below it is shared)
 	interval uint64
 	// oracle state
 	have     bool   // a number was handed out
@@ -236,12 +335,22 @@ type lane struct {
 
 var key = []byte("seq")
 var key2 = []byte("seq2")
+var key3 = []byte("t")
+var key4 = []byte("seq\x00")
 
 var (
 	parentRealm = []byte("store")
 	seqRealm    = []byte("s")
 	otherKey    = []byte("other")
 )
+
+// on: the same world seen from another lane (the requests of that lane run on it; also concurrently).
+func (w *world) on(i int) *world {
+	c := *w
+	c.lane = w.lanes[i]
+
+	return &c
+}
 
 // The sequence lives in a sub-view of a non-root view of the database (realm "store" ++ "s"); sibling sub-views
 // ("store" ++ x) are opened and written while it is in use, and another key of the same view is read by foreign
@@ -260,28 +369,59 @@ func newWorld(r *hx.Run) *world {
 		panic(err)
 	}
 
-	w := &world{root: root, parent: parent, view: view, cs: &crashStore{armed: -1, closeAt: -1}}
-	w.lanes = [2]*lane{{key: key, clean: true}, {key: key2, clean: true}}
+	w := &world{root: root, parent: parent, view: view, slow: &atomic.Bool{}, sh: &shared{cell: map[string][]byte{}}, r: r}
+	w.lanes = &[nLanes]*lane{}
+	for i, k := range [][]byte{key, key2, key3, key4} {
+		w.lanes[i] = &lane{idx: i, key: k, clean: true, cs: &crashStore{armed: -1, closeAt: -1, w: w, slow: w.slow}}
+	}
 	w.lane = w.lanes[0]
 	w.setBackend("view")
-	// the obligation the Sequence has on the store layer, tested on every wrapper stack, at every store call: a write that
-	// answered nil is in the database (it survives a restart), a read answers what the database holds
-	w.cs.onAck = func(k, v []byte) {
-		raw, err := w.rawGet(k)
-		if err != nil || string(raw) != string(v) {
-			r.Fail("store-contract", fmt.Sprintf("Set(%x, %x) answered nil but the database holds %x (%v): the write would not survive a restart", k, v, raw, err),
-				map[string]string{"oracle": "acked-write-lost", "after": w.backend})
-		}
-	}
-	w.cs.onRead = func(k, v []byte, e error) {
-		raw, err := w.rawGet(k)
-		if (e == nil) != (err == nil) || string(raw) != string(v) {
-			r.Fail("store-contract", fmt.Sprintf("Get(%x) answered %x, %v but the database holds %x (%v)", k, v, e, raw, err),
-				map[string]string{"oracle": "stale-read", "after": w.backend})
-		}
-	}
 
 	return w
+}
+
+// The obligation the Sequence has on the store layer, tested on every wrapper stack, at every store call: a write that
+// answered nil is in the database (it survives a restart) - with the bytes the caller handed over when it made the call -,
+// a write that answered an error changed nothing, a read answers what the database holds, and the stored cell does not
+// change between store calls.
+func (w *world) writeAcked(k, want []byte) {
+	raw, err := w.rawGet(k)
+	if err != nil || string(raw) != string(want) {
+		w.r.Fail("store-contract", fmt.Sprintf("Set(%x, %x) answered nil but the database holds %x (%v): the write would not survive a restart", k, want, raw, err),
+			map[string]string{"oracle": "acked-write-lost", "after": w.backend})
+	}
+	w.sh.mu.Lock()
+	w.sh.cell[string(k)] = append([]byte(nil), raw...)
+	w.sh.mu.Unlock()
+}
+
+func (w *world) writeRefused(k, before []byte, beforeErr error) {
+	raw, err := w.rawGet(k)
+	if (err == nil) != (beforeErr == nil) || string(raw) != string(before) {
+		w.r.Fail("store-contract", fmt.Sprintf("Set(%x) answered an error but the database holds %x (%v) instead of %x (%v)", k, raw, err, before, beforeErr),
+			map[string]string{"oracle": "failed-write-applied", "after": w.backend})
+	}
+}
+
+func (w *world) readAnswered(k, v []byte, e error) {
+	raw, err := w.rawGet(k)
+	if (e == nil) != (err == nil) || string(raw) != string(v) {
+		w.r.Fail("store-contract", fmt.Sprintf("Get(%x) answered %x, %v but the database holds %x (%v)", k, v, e, raw, err),
+			map[string]string{"oracle": "stale-read", "after": w.backend})
+	}
+	w.cellUnchanged(k, raw, "get")
+}
+
+// cellUnchanged: the database holds under k what the last acknowledged write put there (nothing, if there was none).
+func (w *world) cellUnchanged(k, raw []byte, after string) {
+	w.sh.mu.Lock()
+	known, ok := w.sh.cell[string(k)]
+	w.sh.mu.Unlock()
+	_ = ok
+	if string(known) != string(raw) {
+		w.r.Fail("store-contract", fmt.Sprintf("the database holds %x under %x, the last acknowledged write was %x: the stored value changed without a store call", raw, k, known),
+			map[string]string{"oracle": "phantom-write", "after": after})
+	}
 }
 
 // rawMark reads the stored bytes through an independent path built from literal realm bytes.
@@ -289,12 +429,7 @@ func (w *world) rawMark() ([]byte, error) { return w.rawGet(w.key) }
 
 // rawGet reads the database itself (not through the closable disk layer or any wrapper).
 func (w *world) rawGet(k []byte) ([]byte, error) {
-	full := append(append(append([]byte{}, parentRealm...), seqRealm...), k...)
-	if w.backend == "root" {
-		full = append([]byte{}, k...)
-	}
-
-	return w.root.Get(full)
+	return w.root.Get(append(append([]byte{}, w.realm...), k...))
 }
 
 func fieldStr(v reflect.Value, name string) string {
@@ -312,6 +447,9 @@ func fieldStr(v reflect.Value, name string) string {
 func (w *world) obs(r *hx.Run, after string) string {
 	o := "-"
 	raw, err := w.rawMark()
+	if err == nil || ierrors.Is(err, kvstore.ErrKeyNotFound) {
+		w.cellUnchanged(w.key, raw, after)
+	}
 	m := "none"
 	var mv uint64
 	present := false
@@ -429,11 +567,18 @@ func isSeqOp(f []string) bool {
 // bytes after it, and (for operations of the sequential machine) the store calls it made.
 func (w *world) exec(r *hx.Run, op string) string {
 	f := strings.Fields(op)
-	if f[0] == "k2" && len(f) > 1 {
-		w.lane = w.lanes[1]
-		defer func() { w.lane = w.lanes[0] }()
-		f = f[1:]
-		op = strings.Join(f, " ")
+	if i := laneOf(f[0]); i > 0 && len(f) > 1 {
+		c := w.on(i)
+		out := c.exec(r, strings.Join(f[1:], " "))
+		w.hung = w.hung || c.hung
+
+		return out
+	}
+	switch f[0] {
+	case "nest", "nestg":
+		return w.execNest(r, f)
+	case "parm":
+		return w.execParm(r, f)
 	}
 	if f[0] == "parrel" {
 		ans, hung := w.guarded(r, op)
@@ -477,6 +622,19 @@ var opTimeout = 30 * time.Second
 // guarded runs one request under a watchdog; a panic of the code under test (other than the injected crash, which is
 // recovered where it is injected) is a finding, not the death of the harness.
 func (w *world) guarded(r *hx.Run, op string) (ans string, hung bool) {
+	if w.inline {
+		// a request that runs inside a store call of another lane's request: same goroutine, the outer watchdog covers it
+		defer func() {
+			if e := recover(); e != nil {
+				r.Fail("no-panic", fmt.Sprintf("%q panicked: %v", op, e), map[string]string{"oracle": "panic", "after": strings.Fields(op)[0]})
+				w.cs.armed, w.cs.failAt, w.cs.closeAt = -1, 0, -1
+				w.dsk.closed.Store(false)
+				ans = "panic"
+			}
+		}()
+
+		return w.execCore(r, op), false
+	}
 	done := make(chan string, 1)
 	go func() {
 		defer func() {
@@ -500,27 +658,124 @@ func (w *world) guarded(r *hx.Run, op string) (ans string, hung bool) {
 	}
 }
 
-func (w *world) setBackend(b string) {
-	switch b {
-	case "root":
-		w.dsk = &disk{KVStore: w.root}
-		w.cs.KVStore = w.dsk
-	case "flush":
-		w.dsk = &disk{KVStore: w.view}
-		w.cs.KVStore = flushkv.New(w.dsk)
-	case "debug":
+// setBackend builds the ONE store handle all lanes use. Besides the four named stacks, `stack:<layer>,<layer>,…` (innermost
+// first, over the closable database) composes every legal configuration of every wrapper of the module:
+//
+//	root | view        the database itself / the sub-view (first layer; default view)
+//	flush              flushkv.New(s)
+//	dbg                debug.New(s, callback)                      (all commands reported)
+//	dbgnil             debug.New(s, nil)                           (no callback)
+//	dbgf:<mask>        debug.New(s, callback, <commands of mask>…)  (mask 0: debug.ShutdownCommand only, i.e. nothing)
+//	dbgnilf:<mask>     debug.New(s, nil, <commands of mask>…)
+//	realm:<hex>        s.WithExtendedRealm(hex)                    (through the WithRealm of the wrappers below)
+func (w *world) setBackend(b string) bool {
+	var top kvstore.KVStore
+	realm := append(append([]byte{}, parentRealm...), seqRealm...)
+	ok := true
+	switch {
+	case b == "root":
+		w.dsk = newDisk(w.root)
+		top, realm = w.dsk, nil
+	case b == "flush":
+		w.dsk = newDisk(w.view)
+		top = flushkv.New(w.dsk)
+	case b == "debug":
 		// the access-callback wrapper, over the flushing wrapper
-		w.dsk = &disk{KVStore: w.view}
-		w.cs.KVStore = debug.New(flushkv.New(w.dsk), func(debug.Command, ...[]byte) {})
+		w.dsk = newDisk(w.view)
+		top = debug.New(flushkv.New(w.dsk), w.dbgCallback)
+	case strings.HasPrefix(b, "stack:"):
+		layers := strings.Split(strings.TrimPrefix(b, "stack:"), ",")
+		w.dsk = newDisk(w.view)
+		if layers[0] == "root" {
+			w.dsk, realm = newDisk(w.root), nil
+		}
+		top = w.dsk
+		for i, l := range layers {
+			name, arg, _ := strings.Cut(l, ":")
+			cmds := func() []debug.Command {
+				mask, err := strconv.ParseUint(arg, 10, 8)
+				if err != nil {
+					ok = false
+				}
+				var out []debug.Command
+				for i := 0; i < 8; i++ {
+					if mask&(1<<i) != 0 {
+						out = append(out, debug.Command(1<<i))
+					}
+				}
+				if len(out) == 0 {
+					out = append(out, debug.ShutdownCommand)
+				}
+
+				return out
+			}
+			switch name {
+			case "root", "view":
+				if i != 0 {
+					ok = false
+				}
+			case "flush":
+				top = flushkv.New(top)
+			case "dbg":
+				top = debug.New(top, w.dbgCallback)
+			case "dbgnil":
+				top = debug.New(top, nil)
+			case "dbgf":
+				top = debug.New(top, w.dbgCallback, cmds()...)
+			case "dbgnilf":
+				top = debug.New(top, nil, cmds()...)
+			case "realm":
+				ext := hx.UnHex(arg)
+				s, err := top.WithExtendedRealm(ext)
+				if err != nil || len(ext) == 0 {
+					ok = false
+
+					break
+				}
+				top, realm = s, append(realm, ext...)
+			default:
+				ok = false
+			}
+		}
 	default:
 		b = "view"
-		w.dsk = &disk{KVStore: w.view}
-		w.cs.KVStore = w.dsk
+		w.dsk = newDisk(w.view)
+		top = w.dsk
 	}
-	w.cs.dsk = w.dsk
-	w.backend = b
-	if err := w.cs.KVStore.Set(otherKey, make([]byte, 8)); err != nil {
+	if !ok {
+		return w.setBackend("view") && false
+	}
+	w.stack, w.realm, w.backend = top, realm, b
+	for _, l := range w.lanes {
+		l.cs.KVStore, l.cs.dsk = top, w.dsk
+	}
+	if err := top.Set(otherKey, make([]byte, 8)); err != nil {
 		panic(err)
+	}
+
+	return true
+}
+
+// dbgCallback is the access callback of the debug layers of the stack: it counts, lets other goroutines run (a logging
+// callback takes time), and is the place where `deep` store-call hooks fire: inside the stack, after the Sequence encoded
+// the value and before the database copies it.
+func (w *world) dbgCallback(cmd debug.Command, params ...[]byte) {
+	switch cmd {
+	case debug.GetCommand:
+		w.sh.dbgCalls[0].Add(1)
+		if len(params) > 0 {
+			w.fireHook('G', params[0], true)
+		}
+	case debug.SetCommand:
+		w.sh.dbgCalls[1].Add(1)
+		if len(params) > 0 {
+			w.fireHook('S', params[0], true)
+		}
+		if w.slow.Load() {
+			runtime.Gosched()
+		}
+	default:
+		w.sh.dbgCalls[2].Add(1)
 	}
 }
 
@@ -531,15 +786,23 @@ func (w *world) execCore(r *hx.Run, op string) string {
 		// harness configuration, before the first `new` of a case; invisible to the model
 		switch {
 		case len(f) == 2 && f[1] == "wrapnf":
-			w.cs.wrapNF = true
-		case len(f) == 3 && f[1] == "backend":
-			w.setBackend(f[2])
+			for _, l := range w.lanes {
+				l.cs.wrapNF = true
+			}
+		case len(f) == 3 && (f[1] == "backend" || f[1] == "stack"):
+			b := f[2]
+			if f[1] == "stack" {
+				b = "stack:" + b
+			}
+			if !w.setBackend(b) {
+				return "bad-op"
+			}
 		case len(f) == 3 && f[1] == "fault":
 			w.faultBy = f[2]
 		case len(f) == 3 && f[1] == "key":
 			w.lanes[0].key = hx.UnHex(f[2])
-		case len(f) == 3 && f[1] == "key2":
-			w.lanes[1].key = hx.UnHex(f[2])
+		case len(f) == 3 && len(f[1]) == 4 && strings.HasPrefix(f[1], "key") && laneOf("k"+f[1][3:]) > 0:
+			w.lanes[laneOf("k"+f[1][3:])].key = hx.UnHex(f[2])
 		}
 
 		return "ok"
@@ -735,7 +998,7 @@ func (w *world) execCore(r *hx.Run, op string) string {
 		g, _ := strconv.Atoi(f[1])
 		k, _ := strconv.Atoi(f[2])
 		seq := w.seq
-		w.cs.slowSet.Store(true)
+		w.slow.Store(true)
 		var mu sync.Mutex
 		seen := map[uint64]int{}
 		var maxN uint64
@@ -790,7 +1053,7 @@ func (w *world) execCore(r *hx.Run, op string) string {
 		nwg.Wait()
 		close(stop)
 		wg.Wait()
-		w.cs.slowSet.Store(false)
+		w.slow.Store(false)
 		for n := range seen {
 			if w.have && n <= w.last {
 				r.Fail("strictly-increasing", fmt.Sprintf("number %d handed out although %d had been handed out before", n, w.last),
@@ -906,6 +1169,175 @@ func (w *world) execCore(r *hx.Run, op string) string {
 	return "bad-op"
 }
 
+// laneOf: `k2` / `k3` / `k4` address lanes 1 / 2 / 3 (0: not a lane prefix).
+func laneOf(tok string) int {
+	switch tok {
+	case "k2":
+		return 1
+	case "k3":
+		return 2
+	case "k4":
+		return 3
+	}
+
+	return 0
+}
+
+func laneSplit(f []string) (int, []string) {
+	if len(f) > 1 && laneOf(f[0]) > 0 {
+		return laneOf(f[0]), f[1:]
+	}
+
+	return 0, f
+}
+
+// execNest runs `nest <pt> <request A> / <request B> / …` and `nestg …`: the requests B (of OTHER lanes: other sequence keys
+// of the same store) run while request A is inside its next store call of kind <pt> for its key - get | set: on top of the
+// store stack; dget | dset: inside the access callback of a debug layer of the stack (after the Sequence encoded the value
+// and handed it over, before the database copies it). `nest`: in the very goroutine that is inside the store call (a
+// deterministic rendering of "A is descheduled there, B runs to completion on the same P"); `nestg`: the goroutine of A
+// parks in the store call and the requests B run in another goroutine meanwhile. If A makes no such store call the requests
+// B run after it. Sequences of different keys are independent (Hive/Model/SeqMulti.lean): the answers are those of the
+// requests made one after the other.
+func (w *world) execNest(r *hx.Run, f []string) string {
+	if len(f) < 4 {
+		return "bad-op"
+	}
+	var segs [][]string
+	cur := []string{}
+	for _, t := range f[2:] {
+		if t == "/" {
+			segs = append(segs, cur)
+			cur = []string{}
+		} else {
+			cur = append(cur, t)
+		}
+	}
+	segs = append(segs, cur)
+	var kind byte
+	switch f[1] {
+	case "get", "dget":
+		kind = 'G'
+	case "set", "dset":
+		kind = 'S'
+	default:
+		return "bad-op"
+	}
+	aLane, aReq := laneSplit(segs[0])
+	if !isSeqOp(aReq) || len(segs) < 2 {
+		return "bad-op"
+	}
+	for _, sg := range segs[1:] {
+		bl, breq := laneSplit(sg)
+		if bl == aLane || !(isSeqOp(breq) || (len(breq) == 1 && breq[0] == "mark")) {
+			return "bad-op"
+		}
+	}
+	var bAns []string
+	ran := false
+	runB := func(inline bool) {
+		ran = true
+		for _, sg := range segs[1:] {
+			bl, breq := laneSplit(sg)
+			c := w.on(bl)
+			c.inline = inline
+			bAns = append(bAns, c.exec(r, strings.Join(breq, " ")))
+			w.hung = w.hung || c.hung
+		}
+	}
+	h := &hook{kind: kind, key: string(w.lanes[aLane].key), deep: f[1][0] == 'd'}
+	aw := w.on(aLane)
+	var aAns string
+	if f[0] == "nest" {
+		h.f = func() {
+			// a database that request A's fault has shut down is shut down for everybody (an event of the environment, not of
+			// one key): the requests B then run after A
+			if !w.dsk.closed.Load() {
+				runB(true)
+			}
+		}
+		w.addHook(h)
+		aAns = aw.exec(r, strings.Join(aReq, " "))
+		w.dropHook(h)
+	} else {
+		entered, resume := make(chan struct{}), make(chan struct{})
+		h.f = func() {
+			if w.dsk.closed.Load() {
+				return
+			}
+			entered <- struct{}{}
+			select {
+			case <-resume:
+			case <-time.After(2 * opTimeout):
+			}
+		}
+		w.addHook(h)
+		done := make(chan string, 1)
+		go func() { done <- aw.exec(r, strings.Join(aReq, " ")) }()
+		select {
+		case <-entered:
+			runB(false)
+			close(resume)
+			aAns = <-done
+		case aAns = <-done:
+		}
+		w.dropHook(h)
+	}
+	w.hung = w.hung || aw.hung
+	if h.fired {
+		w.sh.mu.Lock()
+		w.sh.nestFired++
+		w.sh.mu.Unlock()
+	}
+	if !ran && !w.hung {
+		runB(false)
+	}
+
+	return aAns + " // " + strings.Join(bAns, " // ")
+}
+
+// execParm runs `parm G K`: on EVERY lane that has a live object, G goroutines x K Next calls, all lanes at the same time
+// over the one store (slow store writes: the window between a Sequence handing its value to the store and the database
+// copying it is wide). Answer: per live lane what `par G K` answers, and the lane's state afterwards.
+func (w *world) execParm(r *hx.Run, f []string) string {
+	if len(f) != 3 {
+		return "bad-op"
+	}
+	var live []*world
+	for i := range w.lanes {
+		if w.lanes[i].seq != nil {
+			live = append(live, w.on(i))
+		}
+	}
+	if len(live) == 0 {
+		return "noobj"
+	}
+	w.slow.Store(true)
+	ans := make([]string, len(live))
+	hung := make([]bool, len(live))
+	var wg sync.WaitGroup
+	for i, c := range live {
+		wg.Add(1)
+		go func(i int, c *world) {
+			defer wg.Done()
+			ans[i], hung[i] = c.guarded(r, "par "+f[1]+" "+f[2])
+		}(i, c)
+	}
+	wg.Wait()
+	w.slow.Store(false)
+	for i, c := range live {
+		if hung[i] {
+			r.Fail("progress", fmt.Sprintf("%q did not return within %v", strings.Join(f, " "), opTimeout), map[string]string{"oracle": "hang", "after": "parm"})
+			w.hung = true
+
+			return "hang"
+		}
+		ans[i] += " | " + c.obs(r, "parm")
+	}
+
+	return strings.Join(ans, " ; ")
+}
+
 // execHist runs the request `chist G K IV2 M`: G goroutines x K Next calls on the live object racing one goroutine that
 // keeps calling Release (slow store writes), every goroutine recording what it received in completion order; then the
 // object is abandoned between calls and a fresh object (interval IV2) hands out M numbers.  The recorded history is
@@ -941,7 +1373,7 @@ func (w *world) execHist(r *hx.Run, op string) (line string, ans string) {
 	iv2, _ := strconv.ParseUint(spec[3], 10, 64)
 	m, _ := strconv.Atoi(spec[4])
 	seq := w.seq
-	w.cs.slowSet.Store(true)
+	w.slow.Store(true)
 	perG := make([][]uint64, g)
 	errs := make([]int, g)
 	stop := make(chan struct{})
@@ -984,7 +1416,7 @@ func (w *world) execHist(r *hx.Run, op string) (line string, ans string) {
 
 		return head, "stuck"
 	}
-	w.cs.slowSet.Store(false)
+	w.slow.Store(false)
 	sig := func(o string) map[string]string { return map[string]string{"oracle": o, "after": "chist"} }
 	// independent oracle on the implementation
 	var all []uint64
@@ -1120,6 +1552,63 @@ func genExtreme(rng *hx.Rng, n int) []string {
 	return ops
 }
 
+// genStack: a random legal configuration of the wrappers of the module, innermost first (see setBackend).
+func genStack(rng *hx.Rng) string {
+	layers := []string{hx.Pick(rng, []string{"view", "view", "root"})}
+	masks := []int{0, 8, 16, 24, 255 - 16, 255 - 8, 255, 1 + 2 + 4 + 32 + 64 + 128}
+	n := rng.Range(1, 3)
+	for i := 0; i < n; i++ {
+		switch x := rng.Intn(100); {
+		case x < 15:
+			layers = append(layers, "flush")
+		case x < 27:
+			layers = append(layers, "dbg")
+		case x < 45:
+			layers = append(layers, "dbgnil")
+		case x < 70:
+			m := hx.Pick(rng, masks)
+			if rng.Chance(1, 3) {
+				m = rng.Intn(256)
+			}
+			layers = append(layers, fmt.Sprintf("dbgf:%d", m))
+		case x < 82:
+			layers = append(layers, fmt.Sprintf("dbgnilf:%d", hx.Pick(rng, masks)))
+		default:
+			layers = append(layers, "realm:"+hx.Pick(rng, []string{"7a", "00", "73", "736571", "ff00ff"}))
+		}
+	}
+
+	return strings.Join(layers, ",")
+}
+
+// stackReports: does a debug layer of the stack report the command (8 = Get, 16 = Set) to a callback?
+func stackReports(cfg []string, bit int) bool {
+	for _, c := range cfg {
+		f := strings.Fields(c)
+		if len(f) != 3 || f[0] != "cfg" {
+			continue
+		}
+		if f[1] == "backend" && f[2] == "debug" {
+			return true
+		}
+		if f[1] != "stack" {
+			continue
+		}
+		for _, l := range strings.Split(f[2], ",") {
+			if l == "dbg" {
+				return true
+			}
+			if name, arg, _ := strings.Cut(l, ":"); name == "dbgf" {
+				if m, err := strconv.Atoi(arg); err == nil && m&bit != 0 {
+					return true
+				}
+			}
+		}
+	}
+
+	return false
+}
+
 // genCfg: the harness configuration of a case (invisible to the model): the sequence key(s), the store the handle is
 // made of, and whether a missing key is reported by an error that only wraps ErrKeyNotFound.
 func genCfg(rng *hx.Rng) []string {
@@ -1127,8 +1616,11 @@ func genCfg(rng *hx.Rng) []string {
 	if rng.Chance(1, 3) {
 		ops = append(ops, "cfg wrapnf")
 	}
-	if rng.Chance(1, 3) {
+	switch x := rng.Intn(100); {
+	case x < 25:
 		ops = append(ops, "cfg backend "+hx.Pick(rng, []string{"root", "flush", "flush", "debug"}))
+	case x < 60:
+		ops = append(ops, "cfg stack "+genStack(rng))
 	}
 	if rng.Chance(1, 2) {
 		// store errors are not injected on top of the wrappers: the database below them is shut down at that point of the
@@ -1142,27 +1634,81 @@ func genCfg(rng *hx.Rng) []string {
 		if rng.Chance(1, 2) {
 			ops = append(ops, "cfg key2 "+hx.Pick(rng, []string{"7366", "73657132", "0000", "ff00", "73746f726573"}))
 		}
+		if rng.Chance(1, 3) {
+			ops = append(ops, "cfg key3 "+hx.Pick(rng, []string{"01", "736572", "fe", "7374"}))
+		}
 	}
 	return ops
 }
 
+var lanePrefix = [nLanes]string{"", "k2 ", "k3 ", "k4 "}
+
 func genCase(rng *hx.Rng, n int) []string {
 	intervals := []int{1, 1, 2, 3, 5, 1 << 32}
-	ops := append(genCfg(rng), fmt.Sprintf("new %d", hx.Pick(rng, intervals)))
-	// a quarter of the cases runs a second sequence under another key of the same store handle (`k2 <op>`)
-	twoLanes := rng.Chance(1, 4)
-	if twoLanes {
-		ops = append(ops, fmt.Sprintf("k2 new %d", hx.Pick(rng, intervals)))
+	cfg := genCfg(rng)
+	ops := append(cfg, fmt.Sprintf("new %d", hx.Pick(rng, intervals)))
+	// 40% of the cases run further sequences under other keys of the same store handle (`k2 <op>`, `k3 <op>`, `k4 <op>`)
+	nl := hx.Pick(rng, []int{1, 1, 1, 1, 1, 1, 2, 2, 3, 4})
+	for l := 1; l < nl; l++ {
+		ops = append(ops, fmt.Sprintf("%snew %d", lanePrefix[l], hx.Pick(rng, intervals)))
 	}
 	emit := func(unit ...string) {
-		if twoLanes && rng.Chance(1, 3) {
+		if nl > 1 && rng.Chance(1, 2) {
+			l := rng.Range(1, nl-1)
 			for i := range unit {
-				unit[i] = "k2 " + unit[i]
+				unit[i] = lanePrefix[l] + unit[i]
 			}
 		}
 		ops = append(ops, unit...)
 	}
+	// a request of one lane with requests of other lanes inside one of its store calls
+	nest := func() {
+		a := rng.Intn(nl)
+		pts := []string{"set", "set", "get"}
+		if stackReports(cfg, 16) {
+			pts = append(pts, "dset", "dset", "dset")
+		}
+		if stackReports(cfg, 8) {
+			pts = append(pts, "dget")
+		}
+		aop := hx.Pick(rng, []string{"next", "next", "next", "release", "crash write", "crash relwrite", "crash read", "fnext set", "frelease"})
+		if (aop == "next" || strings.HasPrefix(aop, "crash")) && rng.Chance(2, 3) {
+			// make sure the request renews its lease (a store read and a store write)
+			ops = append(ops, lanePrefix[a]+"release")
+		}
+		line := hx.Pick(rng, []string{"nest", "nest", "nestg"}) + " " + hx.Pick(rng, pts) + " " + lanePrefix[a] + aop
+		crashed := []int{}
+		for j, m := 0, rng.Range(1, 3); j < m; j++ {
+			b := rng.Intn(nl)
+			if b == a {
+				b = (a + 1) % nl
+			}
+			bop := hx.Pick(rng, []string{"next", "next", "release", "release", "next", fmt.Sprintf("new %d", hx.Pick(rng, intervals)), "crash write", "mark", "fnext set"})
+			if bop == "crash write" {
+				crashed = append(crashed, b)
+			}
+			line += " / " + lanePrefix[b] + bop
+		}
+		ops = append(ops, line)
+		if strings.HasPrefix(aop, "crash") {
+			crashed = append(crashed, a)
+		}
+		for _, l := range crashed {
+			ops = append(ops, fmt.Sprintf("%snew %d", lanePrefix[l], hx.Pick(rng, intervals)))
+		}
+	}
 	for i := 0; i < n; i++ {
+		if nl > 1 {
+			if x := rng.Intn(100); x < 8 {
+				nest()
+
+				continue
+			} else if x < 10 {
+				ops = append(ops, fmt.Sprintf("parm %d %d", rng.Range(2, 3), rng.Range(3, 25)))
+
+				continue
+			}
+		}
 		switch x := rng.Intn(100); {
 		case x < 45:
 			emit("next")
@@ -1220,9 +1766,10 @@ func runCase(r *hx.Run, sub uint64, ops []string) {
 			r.Finish()
 			os.Exit(0)
 		}
-		bare := strings.TrimPrefix(op, "k2 ")
-		if bare != op {
-			r.Count("lane:k2")
+		bare := op
+		if ff := strings.Fields(op); len(ff) > 1 && laneOf(ff[0]) > 0 {
+			bare = strings.Join(ff[1:], " ")
+			r.Count("lane:" + ff[0])
 		}
 		k := strings.Fields(bare)[0]
 		if k == "crash" || k == "cfg" {
@@ -1242,6 +1789,15 @@ func runCase(r *hx.Run, sub uint64, ops []string) {
 		}
 		if strings.HasPrefix(ans, "num") {
 			nums++
+		}
+	}
+	r.CountN("nest:store-call-window-reached", w.sh.nestFired)
+	r.CountN("dbg-callback:get", int(w.sh.dbgCalls[0].Load()))
+	r.CountN("dbg-callback:set", int(w.sh.dbgCalls[1].Load()))
+	if strings.HasPrefix(w.backend, "stack:") {
+		for _, l := range strings.Split(strings.TrimPrefix(w.backend, "stack:"), ",") {
+			name, _, _ := strings.Cut(l, ":")
+			r.Count("stack-layer:" + name)
 		}
 	}
 	if crashes >= 2 && nums >= 2 {
